@@ -28,7 +28,7 @@ const originRule = "one case = one history over 1-3 Go zoo targets mocked with a
 const logRule = "one case = one plan of the behavioural worlds (hist incl. methods with OpenDebug/OpenTrace/Close* spliced in as operations, stub incl. variadics and sequences, iface; same generators and seeds) executed three times in one process - logging off, OpenDebug(), OpenTrace() - with line-by-line transcript comparison; the first seeds are repeated in separate processes with GOOM_DEBUG=1, with an uncreatable log directory and with a log file on /dev/full, and transcript hashes are compared across processes; non-trivial = every case compares at least two logging configurations; distinct = hash of (operations, fired events)"
 
 func init() {
-	props["C19"] = propCfg{World: "log", Level: "exploration", Quick: 1500, Thorough: 50000, Chunk: 50, EnvVar: map[string]int{"env:debug": 300, "env:nodir": 150, "env:full": 150}, Rule: logRule, Assume: commonAssume}
+	props["C19"] = propCfg{World: "log", Level: "exploration", Quick: 1500, Thorough: 50000, RaceQ: 240, RaceT: 6000, Chunk: 50, EnvVar: map[string]int{"env:debug": 300, "env:nodir": 150, "env:full": 150}, Rule: logRule, Assume: commonAssume}
 	props["C03"] = propCfg{World: "origin", Level: "exploration", Quick: 1600, Thorough: 100000, Chunk: 40, Rule: originRule, Assume: commonAssume}
 	props["C10"] = propCfg{World: "sym", Level: "fault_enumeration", Quick: 1500, Thorough: 60000, RaceQ: 200, RaceT: 6000, Chunk: 25, Extra: map[string]int{"pie": 150, "strip": 150, "extlink": 200}, Rule: symRule, Assume: commonAssume}
 	props["C14"] = propCfg{World: "mem", Level: "exploration", Quick: 2500, Thorough: 200000, Chunk: 50, Rule: memRule, Assume: commonAssume}
